@@ -80,9 +80,10 @@ func NewWriterLevel(w io.Writer, level, wc int) (*Writer, error) {
 	go func() {
 		defer bg.wg.Done()
 		for qw := range bg.queue {
-			if !writeOK(bg, <-qw.flush) {
-				break
-			}
+			// Keep draining the queue after a failure: every queued
+			// compressor must be handed back and every pending write
+			// accounted for, otherwise Write, Wait and Close block.
+			writeOK(bg, <-qw.flush)
 		}
 	}()
 
@@ -91,9 +92,16 @@ func NewWriterLevel(w io.Writer, level, wc int) (*Writer, error) {
 
 func writeOK(bg *Writer, c *compressor) bool {
 	defer func() { bg.waiting <- c }()
+	defer bg.qwg.Done()
 
 	if c.err != nil {
 		bg.setErr(c.err)
+		return false
+	}
+	if bg.Error() != nil {
+		// An earlier block failed; later blocks must not be written.
+		c.buf.Reset()
+		c.next = 0
 		return false
 	}
 	if c.buf.Len() == 0 {
@@ -101,7 +109,6 @@ func writeOK(bg *Writer, c *compressor) bool {
 	}
 
 	_, err := io.Copy(bg.w, &c.buf)
-	bg.qwg.Done()
 	if err != nil {
 		bg.setErr(err)
 		return false
